@@ -174,15 +174,30 @@ theorem stream_inv_reachable (ops : List HubOp) (now m l : Nat)
 /-- **hub_recovered_true_iff.**  `recovered_true_iff` at hub level: a client subscribe with `Recover`
 in stream mode against any hub state satisfying the invariant (so: any reachable one). -/
 theorem hub_recovered_true_iff (h : Hub) (hi : h.HInv) (sp : SubParams) (hm : sp.cacheMode = false)
-    (hr : sp.recover = true) (hoff : sp.req.offset < U64) :
+    (hr : sp.recover = true) (hw : sp.window = []) (hoff : sp.req.offset < U64) :
     (h.subscribe sp).out.recovered = true ↔
       epochOK (h.access 0).2 sp.req.epoch ∧ sp.req.offset ≤ (h.access 0).2.top ∧
       gapRetained (h.access 0).2 sp.req.offset ∧ ¬ truncated h.cfgLimit (h.access 0).2 sp.req.offset := by
   have : (h.subscribe sp).out = streamSubscribe h.cfgLimit (h.access 0).2 sp.req sp.filt.pass [] := by
     unfold Hub.subscribe
-    simp [hm, hr]
+    simp [hm, hr, hw, Hub.windowEvents]
   rw [this]
   exact recovered_true_iff _ _ (hinv_access hi 0).2.1 _ hoff _
+
+/-- the same with arbitrary traffic (fresh publications, late copies) arriving while the subscribe
+is in flight: the decision is unchanged unless the merge disconnects with insufficient state -/
+theorem hub_recovered_true_iff_window (h : Hub) (hi : h.HInv) (sp : SubParams) (hm : sp.cacheMode = false)
+    (hr : sp.recover = true) (hoff : sp.req.offset < U64) :
+    (h.subscribe sp).out = .insufficient ∨
+    ((h.subscribe sp).out.recovered = true ↔
+      epochOK (h.access 0).2 sp.req.epoch ∧ sp.req.offset ≤ (h.access 0).2.top ∧
+      gapRetained (h.access 0).2 sp.req.offset ∧ ¬ truncated h.cfgLimit (h.access 0).2 sp.req.offset) := by
+  have : (h.subscribe sp).out = streamSubscribe h.cfgLimit (h.access 0).2 sp.req sp.filt.pass
+      ((h.access 0).1.windowEvents (h.access 0).2 sp.filt.pass sp.window).2.1 := by
+    unfold Hub.subscribe
+    simp [hm, hr]
+  rw [this]
+  exact recovered_true_iff_buffered _ _ (hinv_access hi 0).2.1 _ hoff _ _
 
 /-! ### Non-vacuity: concrete states satisfying `Inv`, exercising the branches -/
 
